@@ -268,9 +268,94 @@ def pause_before_complete_workflow_dead_letters_it():
     return res, f"workflow {got.status.name} after unpause, CompleteWorkflow in the DLQ"
 
 
+def crash_between_claim_and_plan_with_stale_task_message_strands_the_stage():
+    """C01: jump loop A->A; the second StartStage(A) dies after its claim commit while the first iteration's
+    CompleteTask(REDIRECT) is still queued: recovery pushes nothing, both messages are ignored."""
+    from stabilize.handlers.start_stage.handler import StartStageHandler
+
+    e = Env()
+    wf = Workflow.create(application="v", name="loop", stages=[stage("A", impl="jump"), stage("B", ("A",))])
+    e.orch.start(wf)
+    for t in ("StartWorkflow", "StartStage", "StartTask", "RunTask", "JumpToStage"):
+        e.deliver(is_(t))
+    # pending now: CompleteTask(REDIRECT) [stale], StartStage(A) [second iteration]
+
+    class Die(BaseException):
+        pass
+
+    orig = StartStageHandler._plan_stage
+
+    def die(self, stage):
+        raise Die()
+
+    StartStageHandler._plan_stage = die
+    try:
+        try:
+            e.deliver(is_("StartStage"))
+        except Die:
+            pass
+    finally:
+        StartStageHandler._plan_stage = orig
+    c = e.conn()
+    if c.in_transaction:
+        c.rollback()
+    e.proc.run_recovery()  # fresh worker: recovery sweep, then everything that is queued, locks lapsed
+    e.fifo()
+    got = e.store.retrieve(wf.id)
+    a = [s for s in got.stages if s.ref_id == "A"][0]
+    res = got.status.name == "RUNNING" and a.status.name == "RUNNING" and a.tasks[0].status.name == "NOT_STARTED" \
+        and not e.pending()
+    e.close()
+    return res, f"workflow {got.status.name}, A {a.status.name}, task {a.tasks[0].status.name}, queue empty"
+
+
+def late_branch_between_claim_and_plan_commit_wedges_the_join():
+    """C04 (same swallowed CAS failure as C07/C18): first-of join D of (E, F); CompleteStage(F) records
+    _completed_branches into D between StartStage(D)'s claim commit and its plan commit."""
+    from stabilize.handlers.start_stage.handler import StartStageHandler
+
+    e = Env()
+    d = StageExecution(ref_id="D", name="D", type="t", requisite_stage_ref_ids={"E", "F"}, join_type=JoinType.DISCRIMINATOR,
+                       tasks=[TaskExecution.create(name="t", implementing_class="ok", stage_start=True, stage_end=True)])
+    wf = Workflow.create(application="v", name="firstof", stages=[stage("E"), stage("F"), d])
+    e.orch.start(wf)
+    ids = {s.ref_id: s.id for s in wf.stages}
+    e.deliver(is_("StartWorkflow"))
+    # run E to completion (this queues StartStage(D)), run F up to its CompleteStage
+    for t in ("StartStage", "StartTask", "RunTask", "CompleteTask", "CompleteStage"):
+        e.deliver(is_(t, ids["E"]))
+    for t in ("StartStage", "StartTask", "RunTask", "CompleteTask"):
+        e.deliver(is_(t, ids["F"]))
+    orig = StartStageHandler._plan_stage
+
+    def plan_with_late_branch_in_between(self, stage):
+        h = e.proc._handlers[[k for k in e.proc._handlers if k.__name__ == "CompleteStage"][0]]
+        m = e.queue.poll_one()
+        while m is not None and not (type(m).__name__ == "CompleteStage" and m.stage_id == ids["F"]):
+            m = e.queue.poll_one()
+        h.handle(m)
+        e.queue.ack(m)
+        return orig(self, stage)
+
+    StartStageHandler._plan_stage = plan_with_late_branch_in_between
+    try:
+        e.deliver(is_("StartStage", ids["D"]))
+    finally:
+        StartStageHandler._plan_stage = orig
+    e.fifo()
+    got = e.store.retrieve(wf.id)
+    dd = [s for s in got.stages if s.ref_id == "D"][0]
+    res = got.status.name == "RUNNING" and dd.status.name == "RUNNING" and dd.tasks[0].status.name == "NOT_STARTED" \
+        and not e.pending()
+    e.close()
+    return res, f"workflow {got.status.name}, join D {dd.status.name}, its task {dd.tasks[0].status.name}, queue empty"
+
+
 ALL = [stale_complete_task_redirect_wedges_the_loop, crash_between_claim_and_plan_loses_upstream_outputs,
        recovery_revives_branch_deselected_by_or_split, signal_between_claim_and_plan_commit_wedges_the_stage,
-       stale_inherited_outputs_on_second_loop_iteration, pause_before_complete_workflow_dead_letters_it]
+       stale_inherited_outputs_on_second_loop_iteration, pause_before_complete_workflow_dead_letters_it,
+       crash_between_claim_and_plan_with_stale_task_message_strands_the_stage,
+       late_branch_between_claim_and_plan_commit_wedges_the_join]
 
 if __name__ == "__main__":
     bad = 0
